@@ -17,7 +17,7 @@ THEOREMS = [
     "C15_never_stays_running_refuted_engine", "C15_never_stays_running_refuted_retries",
     "C15_never_stays_running_refuted_append", "C15_never_stays_running_refuted_idle_write",
     "C15_never_stays_running_partial", "C15_retry_budget", "C15_restart_finalizes", "C15_restart_fault_mislabels",
-    "C15_cancel_reflected_refuted", "C15_cancel_reflected_partial",
+    "C15_cancel_reflected_refuted", "C15_cancel_reflected_partial", "C15_budget_per_write",
 ]
 LEAN_TARGETS = ["WfProps.C15"]
 EXPLANATION = (
@@ -29,7 +29,9 @@ EXPLANATION = (
     "stream in order, an exception ends the run). Theorems: (1) C15_status_map - for every program/schedule/outcome that ends "
     "through a reducer exit command (C04 EndedWell) and every fault assignment within the retry budget the row gets the "
     "status of the outcome with result/error/completed_at; C15_status_before_event; C15_retry_budget (the budget is exactly "
-    "len(backoff)). (2) C15_terminal_sticky - over ALL sequences of late operations (any event of any run except an idle "
+    "len(backoff)); C15_budget_per_write (after ANY history of one runtime instance the schedule is the configured one, so every "
+    "write keeps its full budget - tied to the per-call copy in _retry_store_write via the regenerated retryCopiesPerCall). "
+    "(2) C15_terminal_sticky - over ALL sequences of late operations (any event of any run except an idle "
     "event of the same run, idle clears, restarts, cancels/purges, late terminal updates, store faults) a terminal row never "
     "shows running again; the stores do not enforce it (C15_store_sticky_refuted, C15_idle_event_after_terminal_flips): it "
     "rests on C04 (C15_nothing_published_after_terminal) and on the regenerated list of writers of status=running "
@@ -41,7 +43,8 @@ EXPLANATION = (
     "'running'); op-stream correspondence of the model against the REAL ServerRuntimeDecorator/IdleRelease/Persistence adapter "
     "chain, _WorkflowService.cancel_handler and _on_server_start over real memory and sqlite stores behind a fault proxy, "
     "comparing the stored row after every op. Search: generated scripted workflows on the full in-process stack "
-    "(all outcomes x fault plans x both stores x with/without idle layer), cancels/sends through the service."
+    "(all outcomes x fault plans x both stores x with/without idle layer), cancels/sends through the service; histories of "
+    "3-6 sequential and concurrent runs on ONE runtime instance with in-budget faults per write, clauses 1/3 checked per run."
 )
 LEVEL_TEXT = (
     "Machine-checked (Lean 4) for all programs, schedules and in-budget fault assignments over an executable model of the "
@@ -250,15 +253,22 @@ def monitor(res: S.CaseResult) -> list[Violation]:
     case = res.case
     replay = {k: case.get(k) for k in ("store", "idle_timeout", "backoff", "spec", "fault", "seed", "restart", "restart_fault", "cancel_after_release") if k in case}
     replay["actions"] = res.actions
+    hist = ""
+    if res.replay_case is not None:
+        replay = res.replay_case
+        hist = ":history"
 
     def bad(sig: str, what: str) -> None:
+        if hist and ("within_budget" in sig):
+            sig += hist
+            what += f" (run {case.get('history_index')} of a history of {case.get('history_len')} runs on one runtime instance)"
         vs.append(Violation("C15/" + sig, what + f" [store={case.get('store', 'memory')} idle_timeout={case.get('idle_timeout')} "
                             f"backoff={case.get('backoff')} fault={case.get('fault')} outcome={res.outcome}]", replay))
 
     fault = case.get("fault") or {}
     if res.start_error == "fault":
-        k = int(fault.get("k", 1))
-        if fault.get("kind") == "upd" and k <= res.budget:
+        k = int(fault.get("upd", fault.get("k", 1) if fault.get("kind") == "upd" else 0))
+        if (fault.get("kind") == "upd" or "upd" in fault) and k <= res.budget:
             bad(f"start_failed_within_budget:k={k}:budget={res.budget}", "run_workflow_handler gave up although the store failed no more often than there are back-offs")
         if res.record is not None:
             bad("row_without_run", f"start_workflow raised but a handler row exists with status {getattr(res.record, 'status', None)}")
@@ -369,7 +379,8 @@ def monitor(res: S.CaseResult) -> list[Violation]:
         bad(f"terminal_event_before_status:{EVENT_STATUS.get(ty, 'completed')}", f"{ty} was appended to the event log while the row still said {st}")
         break
     # --- in-budget faults must be invisible
-    if fault.get("kind") in ("uhs_terminal", "upd") and int(fault.get("k", 1)) <= res.budget and res.outcome == "store_fault":
+    if fault.get("kind") in ("uhs_terminal", "upd") and int(fault.get("k", 1)) <= res.budget and int(fault.get("upd", 0)) <= res.budget \
+            and res.outcome == "store_fault":
         bad(f"fault_within_budget_killed_run:{fault.get('kind')}:k={fault.get('k')}:budget={res.budget}",
             "the store failed no more often than there are back-offs, yet the exception left the retry loop")
     return vs
@@ -455,6 +466,45 @@ def gen_case(rng: random.Random) -> dict:
     return {"store": store, "idle_timeout": idle, "backoff": backoff, "spec": spec, "fault": fault, "seed": rng.randrange(1 << 30)}
 
 
+def history_corpus() -> list[dict]:
+    """several runs on ONE runtime instance, every write within its own budget"""
+    sp = outcome_specs()
+    out = []
+    for store in ("memory", "sqlite"):
+        out.append({"store": store, "seed": 3, "history": [{"spec": sp["success"], "uhs": 1}, {"spec": sp["step_failure"], "uhs": 1},
+                                                           {"spec": sp["success"], "uhs": 1}, {"spec": sp["idle_then_cancel"], "uhs": 1}]})
+        out.append({"store": store, "seed": 4, "backoff": [1.0], "history": [{"spec": sp["success"], "upd": 1}, {"spec": sp["timeout"], "uhs": 1},
+                                                                             {"spec": sp["success"], "upd": 1, "uhs": 1}]})
+        out.append({"store": store, "seed": 5, "idle_timeout": 1000.0,
+                    "history": [{"spec": sp["cancel_vs_completion"], "uhs": 2, "with_next": True}, {"spec": sp["success_after_retry"], "uhs": 2},
+                                {"spec": sp["handled_failure"], "uhs": 2, "with_next": True}, {"spec": sp["cancel"], "upd": 2, "uhs": 1}]})
+    return out
+
+
+def gen_history(rng: random.Random) -> dict:
+    store = "sqlite" if rng.random() < 0.25 else "memory"
+    backoff = rng.choice([None, None, [1.0], [0.1, 0.2, 0.3]])
+    budget = 2 if backoff is None else len(backoff)
+    pool = [v for k, v in outcome_specs().items()]
+    items = []
+    for _ in range(rng.randint(3, 6)):
+        if rng.random() < 0.6:
+            spec = json.loads(json.dumps(rng.choice(pool)))
+        else:
+            spec = specgen.gen_spec(rng, allow_sync=False)
+            spec["externals"] = [e for e in spec.get("externals", []) if e["op"] in ("send", "cancel")]
+        it: dict[str, Any] = {"spec": spec}
+        if rng.random() < 0.7:
+            it["uhs"] = rng.randint(1, budget)
+        if rng.random() < 0.2:
+            it["upd"] = rng.randint(1, budget)
+        if rng.random() < 0.25:
+            it["with_next"] = True
+        items.append(it)
+    return {"store": store, "idle_timeout": 1000.0 if rng.random() < 0.3 else None, "backoff": backoff, "history": items,
+            "seed": rng.randrange(1 << 30)}
+
+
 def _load_corpus() -> list[dict]:
     out = []
     if os.path.isdir(CORPUS):
@@ -482,10 +532,27 @@ def _search(env: Env, out: Outcome, n: int) -> None:
             out.nontrivial((json.dumps(case, sort_keys=True, default=repr), tuple(res.actions)))
         return res
 
+    def run_hist(case: dict, tag: str) -> None:
+        rs = S.run_history(case)
+        out.evaluations += 1
+        out.count(f"hist:{tag}:runs", len(rs))
+        out.count("hist:store:" + case.get("store", "memory"))
+        out.count("hist:concurrent_groups", sum(1 for it in case["history"] if it.get("with_next")))
+        out.count("hist:faults_armed", sum(int(it.get("uhs", 0)) + int(it.get("upd", 0)) for it in case["history"]))
+        for r in rs:
+            out.count(f"hist:{tag}:outcome:" + r.outcome)
+            if r.record is not None:
+                out.count(f"hist:final:{r.outcome}->{r.record['status']}")
+            out.violations += monitor(r)
+        if any(r.started for r in rs):
+            out.nontrivial((json.dumps(case, sort_keys=True, default=repr), tuple(rs[0].actions)))
+
     # replay first
     if env.replay is not None:
         case = env.replay.get("payload", {}).get("case")
-        if isinstance(case, dict) and "spec" in case:
+        if isinstance(case, dict) and "history" in case:
+            run_hist(case, "replay")
+        elif isinstance(case, dict) and "spec" in case:
             res = run_one(case, "replay")
             out.violations += monitor(res)
     # hand-picked corpus: every outcome x fault count 0..budget x both stores, plus witnesses of the findings
@@ -499,6 +566,8 @@ def _search(env: Env, out: Outcome, n: int) -> None:
                 out.violations += monitor(run_one(case, "corpus"))
     for case in _load_corpus():
         out.violations += monitor(run_one(case, "corpus"))
+    for case in history_corpus():
+        run_hist(case, "corpus")
     for case in restart_cases():
         res = run_one(case, "restart")
         out.count(f"run:restart:{res.outcome}:{res.record and res.record['status']}->{res.record_restart and res.record_restart['status']}")
@@ -510,6 +579,9 @@ def _search(env: Env, out: Outcome, n: int) -> None:
         if not any(v.signature == KNOWN[name] for v in vs):
             out.notes.append(f"known-finding witness '{name}' ({case.get('store')}) did not reproduce: outcome={res.outcome} "
                              f"row={res.record and res.record['status']}")
+    # generated histories on one runtime instance (every write within its own budget)
+    for _ in range(max(1, n // 8)):
+        run_hist(gen_history(rng), "gen")
     # generated stream (steered away from the known triggers)
     for _ in range(n):
         case = gen_case(rng)
@@ -526,7 +598,8 @@ def run(env: Env) -> Outcome:
                 "restart with every replay result / store faults 0..4) on the real adapter chain + service + _on_server_start over memory "
                 "and sqlite vs the Lean model, row compared after every op; non-trivial = a terminal status was written; distinct by "
                 "(store, op stream). (S) scripted workflows on the full stack: every outcome x fault plan x store x idle layer; "
-                "non-trivial = the row was written more than once; distinct by (case, schedule)")
+                "non-trivial = the row was written more than once; distinct by (case, schedule); plus histories of 3-6 runs (some concurrent) "
+                "on ONE stack/runtime instance, every write within its own retry budget, clauses checked per run")
     _corr(env, out, env.budget(200, 4500), env.budget(40, 1000))
-    _search(env, out, env.budget(300, 7000))
+    _search(env, out, env.budget(240, 5600))
     return out
